@@ -11,7 +11,8 @@ from ..driver import ddmin_list
 CONFIG = {
     "level": "exploration",
     "level_text": ("Seeded exploration over time zones given as POSIX rule strings (UTC, fixed +/- offsets incl. half-hour and "
-                   "45-minute zones, DST zones of both hemispheres) with the simulated 'now' and the file modification times "
+                   "45-minute zones, DST zones of both hemispheres) and as generated TZif files (zones whose past differs from "
+                   "today's rule, modification times back to 1958 i.e. negative time stamps) with the simulated 'now' and the file modification times "
                    "placed mid-winter, mid-summer and seconds before / after each DST switch of the zone (incl. the repeated "
                    "hour), fractional seconds, and a clock that jumps so that one command can straddle a second or a switch. "
                    "Every size, lastmodificationdate, hashdate, creationdate and manifest file name written by create, "
@@ -66,8 +67,20 @@ def transitions(tz, year):
     return _TRANS[key]
 
 
-def pick_instant(rng, tz):
+ZONES = [
+    # zones with a past that differs from the rule in force today (generated TZif files)
+    {"std": 3600, "dst": 7200, "start": [3, 5, 2], "end": [10, 5, 3], "years": [1950, 2037]},
+    {"std": -18000, "dst": -14400, "start": [4, 5, 2], "end": [10, 5, 2], "years": [1950, 2037]},
+    {"std": 0, "dst": 3600, "start": [3, 5, 1], "end": [10, 5, 2], "years": [1960, 2037], "shift": [1968, 3600, 3600]},
+    {"std": -16200, "dst": -12600, "start": [10, 2, 0], "end": [3, 2, 0], "years": [1955, 2037], "shift": [2008, -14400, -10800]},
+    {"std": 34200, "dst": 37800, "start": [10, 1, 2], "end": [4, 1, 3], "years": [1965, 2030]},
+]
+
+
+def pick_instant(rng, tz, old=False):
     year = rng.choice([2019, 2021, 2023, 2024])
+    if old:
+        year = rng.choice([1958, 1961, 1965, 1967, 1968, 1969, 1970, 1971])
     tr = transitions(tz, year)
     k = rng.random()
     base = int(datetime.datetime(year, 1, 15, 12, tzinfo=datetime.timezone.utc).timestamp())
@@ -84,11 +97,16 @@ def pick_instant(rng, tz):
 def generate(rng, tier):
     env = gen.gen_env(rng)
     env["tz"] = rng.choice(gen.TZS + [z for z in gen.TZS if "," in z])
+    if rng.random() < 0.25:
+        env["tz"] = "TZIF"
+        env["tzif"] = rng.choice(ZONES)
+    tzs = core.resolve_tz(env)
     env["clock_profile"] = rng.choice(["calm", "ms", "jumpy", "jumpy"])
-    env["t0"] = pick_instant(rng, env["tz"])
+    env["t0"] = pick_instant(rng, tzs)
     tree = gen.gen_tree(rng, max_entries=7, max_depth=2, hostile=0.1, sizes=[0, 0, 1, 2, 17, 1000])
+    p_old = rng.choice([0, 0, 0.3, 0.6])  # modification times before / around 1970 (negative time stamps)
     for rel, ent in tree.items():
-        ent["m"] = pick_instant(rng, env["tz"])
+        ent["m"] = pick_instant(rng, tzs, old=rng.random() < p_old)
     env["tree"] = tree
     ops = []
     nested = scen.subroots_of(tree, rng, 1) if rng.random() < 0.25 else []
@@ -100,7 +118,6 @@ def generate(rng, tier):
         if r < 0.6 or i == 0:
             ops.append(explore.gen_create(rng, state, {"sf": 0.25, "n": 0.1, "dr": 0.05, "i": 0.05, "creator": 0.1}))
         elif r < 0.8:
-            tr = transitions(env["tz"], 2023)
             us = rng.choice([0, 1_000_000, 3_600_000_000, 86_400_000_000, 180 * 86_400_000_000, 7_200_000_000])
             ops.append({"op": "advance", "us": us})
         else:
@@ -136,7 +153,7 @@ def monitor(ctx, st):
     name = op["argv"][0]
     if name not in ("create", "flatten") or res.outcome[0] != "exit" or res.outcome[1] not in (0, 10, 11):
         return
-    tz = w.spec["tz"]
+    tz = w.spec["tz"] if w.spec["tz"] != "TZIF" else "TZIF" + repr(sorted(w.spec["tzif"].items()))
     now_off = gmtoff(res.end_us)
     added, removed, changed = core.snapshot_diff(st.pre, st.post)
     for rel in added:
